@@ -16,6 +16,7 @@ type Engine struct {
 	filterProp string
 	heapStruct map[string]types.Type // field heap name -> struct type
 	built      map[*ssa.Package]bool
+	thorough   bool
 	byName     map[string][]*types.Package
 }
 
@@ -383,7 +384,37 @@ type FuncResult struct {
 	Skipped string
 }
 
+// verifyFunction verifies fn against spec; with `case` clauses it runs once per case plus an exhaustiveness obligation.
 func (e *Engine) verifyFunction(fn *ssa.Function, spec *FuncSpec, props []string) *FuncResult {
+	if spec == nil || len(spec.Cases) == 0 {
+		return e.verifyFunctionCase(fn, spec, props, -1)
+	}
+	var all *FuncResult
+	for k := range spec.Cases {
+		if spec.Cases[k].Slow && !e.thorough {
+			if all == nil {
+				all = &FuncResult{Fn: fn, Key: funcKey(fn), Spec: spec, Mode: spec.Mode}
+			}
+			all.Notes = append(all.Notes, fmt.Sprintf("%s: case %d (%s) is only verified in the thorough tier", funcKey(fn), k+1, spec.Cases[k].Src))
+			continue
+		}
+		r := e.verifyFunctionCase(fn, spec, props, k)
+		if all == nil {
+			all = r
+			continue
+		}
+		all.Obls = append(all.Obls, r.Obls...)
+		all.Errors = append(all.Errors, r.Errors...)
+		all.Notes = append(all.Notes, r.Notes...)
+		all.Trusted = append(all.Trusted, r.Trusted...)
+	}
+	r := e.verifyFunctionCase(fn, spec, props, len(spec.Cases))
+	all.Obls = append(all.Obls, r.Obls...)
+	all.Errors = append(all.Errors, r.Errors...)
+	return all
+}
+
+func (e *Engine) verifyFunctionCase(fn *ssa.Function, spec *FuncSpec, props []string, caseIdx int) *FuncResult {
 	res := &FuncResult{Fn: fn, Key: funcKey(fn), Spec: spec}
 	if spec == nil {
 		spec = &FuncSpec{Key: funcKey(fn), LoopInv: map[int][]*Clause{}, Unroll: map[int]int{}, LoopMod: map[int][]string{}}
@@ -457,6 +488,32 @@ func (e *Engine) verifyFunction(fn *ssa.Function, spec *FuncSpec, props []string
 		iv, _ = x.coerce(iv, cur)
 		x.q.assert(eq(cur.S, iv.S))
 	}
+	if caseIdx >= 0 && caseIdx == len(spec.Cases) {
+		// exhaustiveness of the case split under the precondition
+		var cs []string
+		for _, cc := range spec.Cases {
+			g, err := x.evalBool(fr, cc.Expr, ctx)
+			if err != nil {
+				x.errf("%s: case %q: %v", res.Key, cc.Src, err)
+				continue
+			}
+			cs = append(cs, g)
+		}
+		x.addObl("cases", "exhaustive", "true", or(cs...), "case split is exhaustive", token.NoPos)
+		res.Obls = x.obls
+		res.Errors = append(res.Errors, x.errs...)
+		return res
+	}
+	if caseIdx >= 0 {
+		cc := spec.Cases[caseIdx]
+		g, err := x.evalBool(fr, cc.Expr, ctx)
+		if err != nil {
+			x.errf("%s: case %q: %v", res.Key, cc.Src, err)
+		} else {
+			x.q.assert(g)
+		}
+		x.caseTag = fmt.Sprintf("@case%d", caseIdx+1)
+	}
 	if len(spec.Requires)+len(spec.Assumes) > 0 {
 		o := x.addObl("vacuity", "pre", "true", "false", "precondition is satisfiable (expected sat)", token.NoPos)
 		o.Vacuity = true
@@ -493,6 +550,21 @@ func (e *Engine) verifyFunction(fn *ssa.Function, spec *FuncSpec, props []string
 	if len(spec.Ensures) > 0 {
 		o := x.addObl("vacuity", "exit", ex.reach, "false", "some return is reachable (expected sat)", token.NoPos)
 		o.Vacuity = true
+	}
+	// preserves: objects that existed at entry are unchanged in the named heaps
+	for _, h := range x.preservedHeaps(spec, fn) {
+		if g := x.preserveFact(fr.oldState, ex.st, h); g != "" {
+			x.addObl("frame", "preserves:"+strings.Trim(h, "|"), ex.reach, g, "objects allocated before the call are unchanged in "+h, token.NoPos)
+		}
+	}
+	if spec.Deterministic {
+		o := &Obligation{Name: x.oblName("static", "deterministic"), Kind: "static", Func: res.Key, Q: x.q, Props: props, Desc: "result depends only on the arguments: no map iteration, select, goroutine, clock/random/environment call or package-variable read (library calls trusted deterministic)"}
+		if why := nondetReasons(e, fn, map[*ssa.Function]bool{}); len(why) == 0 {
+			o.Result, o.Solver = "unsat", "static"
+		} else {
+			o.Result, o.Solver, o.Output = "sat", "static", strings.Join(why, "; ")
+		}
+		x.obls = append(x.obls, o)
 	}
 	// frame: declared modifies must cover the syntactic write set
 	if spec.HasMod {
@@ -640,4 +712,105 @@ func sortedGhostNames(db *SpecDB) []string {
 	}
 	sort.Strings(ns)
 	return ns
+}
+
+// preservedHeaps resolves the `preserves` clause to heap names.
+func (x *FnExec) preservedHeaps(spec *FuncSpec, fn *ssa.Function) []string {
+	if spec == nil || len(spec.Preserves) == 0 {
+		return nil
+	}
+	set := map[string]bool{}
+	for _, p := range spec.Preserves {
+		if p == "all" {
+			if spec.HasMod {
+				x.specModifies(spec, set)
+			} else if fn != nil {
+				x.eng.ensureBuilt(fn)
+				x.writeSetFn(fn, set, map[*ssa.Function]bool{})
+			}
+			continue
+		}
+		names, err := x.eng.resolveHeapSpec(x, spec.Pkg, p)
+		if err != nil {
+			x.errf("preserves %q in %s: %v", p, spec.Key, err)
+			continue
+		}
+		for _, n := range names {
+			set[n] = true
+		}
+	}
+	var out []string
+	for h := range set {
+		if _, ok := x.q.heaps[h]; ok && !strings.HasPrefix(h, "$") {
+			out = append(out, h)
+		}
+	}
+	sort.Strings(out)
+	return out
+}
+
+// preserveFact: forall r. alloc_pre[r] => H_post[r] == H_pre[r]  (global cells: H_post == H_pre)
+func (x *FnExec) preserveFact(pre, post *State, h string) string {
+	srt := x.q.heaps[h]
+	a, b := x.heapGet(pre, h, srt), x.heapGet(post, h, srt)
+	if a == b {
+		return ""
+	}
+	if !strings.HasPrefix(srt, "(Array Ref ") {
+		return eq(a, b)
+	}
+	al := x.heapGet(pre, "$alloc", "(Array Ref Bool)")
+	x.q.fresh["qv_fr"]++
+	r := fmt.Sprintf("|r?fr%d|", x.q.fresh["qv_fr"])
+	return fmt.Sprintf("(forall ((%s Ref)) (=> (select %s %s) (= (select %s %s) (select %s %s))))", r, al, r, b, r, a, r)
+}
+
+// nondetReasons: syntactic sources of nondeterminism / hidden state in fn and the repository functions it calls.
+func nondetReasons(e *Engine, fn *ssa.Function, seen map[*ssa.Function]bool) []string {
+	if seen[fn] || fn.Blocks == nil {
+		return nil
+	}
+	seen[fn] = true
+	var out []string
+	for _, b := range fn.Blocks {
+		for _, in := range b.Instrs {
+			switch in := in.(type) {
+			case *ssa.Range:
+				if _, ok := in.X.Type().Underlying().(*types.Map); ok {
+					out = append(out, "map iteration in "+funcKey(fn))
+				}
+			case *ssa.Select:
+				out = append(out, "select in "+funcKey(fn))
+			case *ssa.Go:
+				out = append(out, "go statement in "+funcKey(fn))
+			case *ssa.UnOp:
+				if g, ok := in.X.(*ssa.Global); ok && in.Op == token.MUL {
+					out = append(out, "reads package variable "+g.Name()+" in "+funcKey(fn))
+				}
+				if in.Op == token.ARROW {
+					out = append(out, "channel receive in "+funcKey(fn))
+				}
+			case ssa.CallInstruction:
+				c := in.Common()
+				if callee, ok := c.Value.(*ssa.Function); ok {
+					name := callee.String()
+					for _, bad := range []string{"time.Now", "time.Since", "math/rand", "crypto/rand", "os.Getenv", "os.Hostname", "github.com/google/uuid"} {
+						if strings.Contains(name, bad) {
+							out = append(out, "calls "+name+" in "+funcKey(fn))
+						}
+					}
+					if e.isRepoFunc(callee) {
+						e.ensureBuilt(callee)
+						out = append(out, nondetReasons(e, callee, seen)...)
+					}
+				}
+				if mc, ok := c.Value.(*ssa.MakeClosure); ok {
+					out = append(out, nondetReasons(e, mc.Fn.(*ssa.Function), seen)...)
+				}
+			case *ssa.MakeClosure:
+				out = append(out, nondetReasons(e, in.Fn.(*ssa.Function), seen)...)
+			}
+		}
+	}
+	return out
 }
